@@ -10,7 +10,11 @@ use std::sync::atomic::{AtomicBool, AtomicU64, AtomicUsize, Ordering};
 use std::sync::Mutex;
 use std::time::Instant;
 
-pub const VERIF_DIR: &str = "/verif";
+/// Root of the verification directory (evidence, replays, regress, KNOWN_FINDINGS). `/verif` unless
+/// FQV_verif_dir() is set (used only by the sensitivity tooling, which runs against scratch copies).
+pub fn verif_dir() -> String {
+    std::env::var("FQV_verif_dir()").unwrap_or_else(|_| "/verif".to_string())
+}
 
 #[derive(Clone, Copy, Debug, PartialEq, Eq)]
 pub enum Tier {
@@ -394,7 +398,7 @@ impl Engine {
                 replay_paths.push(p);
                 continue;
             }
-            let dir = format!("{}/replays/{}", VERIF_DIR, self.id);
+            let dir = format!("{}/replays/{}", verif_dir(), self.id);
             let _ = std::fs::create_dir_all(&dir);
             let path = format!("{}/{:016x}.json", dir, hash_value(&f.case));
             let doc = json!({
@@ -457,7 +461,7 @@ impl Engine {
             "wall_s": (wall * 1000.0).round() / 1000.0,
             "violations": failures.len(),
         });
-        let dir = format!("{}/evidence", VERIF_DIR);
+        let dir = format!("{}/evidence", verif_dir());
         let _ = std::fs::create_dir_all(&dir);
         let path = format!("{}/{}.json", dir, self.id);
         let tmp = format!("{}.tmp", path);
@@ -652,7 +656,7 @@ impl<'e> JobCtx<'e> {
 }
 
 fn load_known(id: &str) -> Vec<Known> {
-    let path = format!("{}/KNOWN_FINDINGS.txt", VERIF_DIR);
+    let path = format!("{}/KNOWN_FINDINGS.txt", verif_dir());
     let mut out = Vec::new();
     if let Ok(text) = std::fs::read_to_string(&path) {
         for line in text.lines() {
@@ -685,7 +689,7 @@ fn load_known(id: &str) -> Vec<Known> {
 /// Replay all committed regression cases of a property through `replay`; failures are recorded
 /// as violations pointing at the regress file.
 pub fn run_regress(e: &Engine, replay: &(dyn Fn(&Value, &mut Obs) -> Result<(), Fail> + Sync)) {
-    let dir = format!("{}/regress/{}", VERIF_DIR, e.id);
+    let dir = format!("{}/regress/{}", verif_dir(), e.id);
     let mut files: Vec<String> = match std::fs::read_dir(&dir) {
         Ok(rd) => rd
             .filter_map(|x| x.ok())
